@@ -22,7 +22,7 @@
    length.  What is only tested (correspondence run, not proved): that [ustep] mirrors the
    schema layer's expansion and acceptance, and that [fstep] mirrors pgsql/delta.py. *)
 From Coq Require Import List NArith Bool.
-From Verif.C05 Require Import Gen_Layout Model Proofs ProofsCmd ProofsType ProofsMain.
+From Verif.C05 Require Import Gen_Layout Model Proofs ProofsCmd ProofsType ProofsMain ProofsLayout.
 Import ListNotations.
 
 (* after any history of flat commands that avoids the refuted decision, the catalog is exactly
@@ -31,6 +31,18 @@ Theorem C05_tracks : forall cms fs c fs' c',
   fwf2 fs -> Inv fs c -> frun_safe fs c cms = FOk fs' c' -> Inv fs' c'.
 Proof. exact p_tracks. Qed.
 Print Assumptions C05_tracks.
+
+(* the same with the layout as a catalog: [layout fs] is the executable function schema -> catalog
+   (a table per object type with `id` and one column per stored single pointer; a table
+   (source, target, stored link properties) per pointer that has_table) *)
+Theorem C05_layout_spec : forall fs, fwf2 fs -> Inv fs (layout fs).
+Proof. exact p_layout_spec. Qed.
+Print Assumptions C05_layout_spec.
+
+Theorem C05_tracks_layout : forall cms fs c fs' c',
+  fwf2 fs -> Inv fs c -> frun_safe fs c cms = FOk fs' c' -> cat_equiv c' (layout fs').
+Proof. exact p_tracks_layout_run. Qed.
+Print Assumptions C05_tracks_layout.
 
 (* ... and no emitted command fails in the backend (nothing is created twice, nothing missing
    is dropped or altered) *)
